@@ -98,3 +98,10 @@ package util
 
 // ---- C20: the queue's chunk list and depth are only touched under its lock (every method is atomic w.r.t. them) -------
 //@ guarded [C20] Queue.queue, Queue.depth by Queue.lock
+
+// roughly(input, output): the fuzzy echo test (every input byte found in output, in order); body not verified here
+//@ spec roughly(input []byte, output []byte) bool
+//@ func BytesRoughlyContains
+//@   noverify
+//@   pure
+//@   ensures result <==> roughly(input, output)
